@@ -1,0 +1,12 @@
+//go:build !verif
+
+// Package verifhook provides named yield points for external verification
+// harnesses. Without the "verif" build tag every function is empty and is
+// inlined away.
+package verifhook
+
+// Point marks a named yield point.
+func Point(name string) {}
+
+// Note reports a named event with optional key/value details.
+func Note(name string, kv ...any) {}
